@@ -9,15 +9,24 @@ model of each of N) and with the specification (Spec/SubprocSpec.v, evaluated in
 Implementation-only input dimensions (judged by the property text directly): `nest` - the callee starts a process of its
 own (nested invocation of the implementation, plain multiprocess.Process) and returns what it computed; `sig` - the
 application has its own SIGTERM/SIGINT dispositions, inherited by every child (the model knows this as beh.b_term_fatal
-and answers with `held`: the parent sits in a synchronous call while the callee computes)."""
+and answers with `held`: the parent sits in a synchronous call while the callee computes); `ret` - the callee returns a
+picklable awaitable / generator-like object (or a coroutine object, which is not picklable) instead of plain data: the
+awaiting task must get an instance of that very class; `hold` - the caller keeps the exception objects it caught, as
+they are, until all invocations of the case are over (distinct invocations must have been handed distinct objects; the
+fd / child census follows when the caller has dropped them); `round` - several rounds of concurrent invocations one after
+the other in the same process and on the same loop (stream `series`: child deaths in sequence and at the same time)."""
 import copy, json, re
 from lib import *
 
 UNITS = ['Subproc']
-MODEL = ['Model/SubprocEval.vo']
+MODEL = ['Model/SubprocEval.vo', 'Model/SubprocRet.vo', 'Model/SubprocExc.vo']
 PROPS = 'Props/C17.v'
 PRE = ('From Coq Require Import List ZArith Bool.\nFrom PV Require Import Base.Exn Model.PipeKernel Model.Subproc '
        'Spec.SubprocSpec Model.SubprocEval.\nImport ListNotations.')
+
+PRE_RET = ('From Coq Require Import List ZArith Bool.\nFrom PV Require Import Base.Exn Model.PipeKernel Model.Subproc '
+           'Gen.Subproc Model.SubprocRet Model.SubprocExc.\nImport ListNotations.')
+RETM = {}      # (ret kind, coroutine function) -> [code] of Model/SubprocRet.eval_ret on the regenerated child program
 
 EXC = {'ValueError': [0, 1], 'KeyError': [0, 3, 1], 'TypeError': [0, 2], 'RuntimeError': [0, 6], 'OSError': [0, 11],
        'EOFError': [0, 12], 'ChildProcessError': [0, 11, 0], 'UserError': [0, 20], 'UserErrorSub': [0, 20, 0],
@@ -35,6 +44,12 @@ NESTS = ['insub', 'insub2', 'process']
 # the application has its own SIGTERM + SIGINT dispositions while the invocations run, every forked child inherits
 # them: a Python handler that only records the signal / SIG_IGN (implementation-only dimension)
 SIGS = ['handler', 'ignore']
+# what the callee returns instead of plain data (implementation-only dimension): an instance of a picklable class with
+# __await__ / whose __await__ raises / with the iterator + send/throw/close protocol / with both; 'coroutine': the
+# coroutine object a coroutine function returns (cannot be pickled: pick is False for it)
+RETS = ['awaitable', 'awaitable_fails', 'iterator', 'awaitable_iter', 'coroutine']
+MSG_SHARED = ('the awaiting task was handed the very same exception object as another invocation of the process '
+              '(each invocation must receive its own outcome)')
 
 
 def protected_wait():
@@ -70,9 +85,17 @@ DEMAND = {1: 'the callee\'s return value', 2: 'the callee\'s exception', 3: 'Run
 def mk(rng, **k):
     d = {'out': 'ok', 'exc': EXC['ValueError'], 'die': 'os_exit', 'big': False, 'pick': True, 'async': False, 'reterr': False,
          'kill': 'none', 'via': 'func', 'dur': 0, 'ticks': False, 'nonce': rng.randrange(10 ** 6), 'kw': rng.choice(KW_POOL),
-         'unp': False, 'cancel': 'none', 'nest': 'none', 'sig': 'none', 'glife': 0}
+         'unp': False, 'cancel': 'none', 'nest': 'none', 'sig': 'none', 'glife': 0, 'ret': 'plain', 'hold': 'none', 'round': 0}
     d.update(k)
-    if d['nest'] != 'none' or d['sig'] != 'none':
+    if d['ret'] != 'plain' and (d['out'] != 'ok' or d['reterr']):
+        d['ret'] = 'plain'           # the dimension is about what a callee that returns hands back
+    if d['ret'] == 'coroutine':
+        d['pick'] = False            # a coroutine object cannot be pickled (not by dill either)
+    if d['unp'] or d['cancel'] != 'none':
+        # hold: CPython 3.12 can crash when the cycle collector frees the frames of a Connection.recv() whose unpickling
+        # raised (see w_subproc.wrapped); a cancelled await raises the caller's own CancelledError, nothing to compare
+        d['hold'] = 'none'
+    if d['nest'] != 'none' or d['sig'] != 'none' or d['ret'] != 'plain' or d['hold'] != 'none':
         # the open findings (C17-K1 returned SubprocessError, C17-K3 keyword named func) are registered for the plain
         # input region only (their matchers demand it): not combined with the two implementation-only dimensions
         d['reterr'] = False
@@ -198,6 +221,21 @@ def gen_single(rng, tier, scale):
         invs.append(mk(rng, sig=sig, out='die', die=rng.choice(DIES)))
         invs.append(mk(rng, sig=sig, kill=rng.choice(KILLS)))
         invs.append(mk(rng, sig=sig, nest=rng.choice(NESTS), **{'async': rng.random() < 0.5}))
+    # the callee returns a picklable awaitable / generator-like object, or a coroutine object (not picklable)
+    for ret in RETS:
+        for asy in both:
+            invs.append(mk(rng, ret=ret, via=rng.choice(['func', 'deco']), big=rng.random() < 0.2, **{'async': asy}))
+    invs.append(mk(rng, ret=rng.choice(RETS[:4]), nest=rng.choice(NESTS)))
+    invs.append(mk(rng, ret=rng.choice(RETS[:4]), kill=rng.choice(KILLS)))
+    invs.append(mk(rng, ret=rng.choice(RETS[:4]), sig=rng.choice(SIGS), ticks=True))
+    # the caller keeps the exception object it caught until the case is over
+    for die in DIES:
+        invs.append(mk(rng, out='die', die=die, hold='keep', via=rng.choice(['func', 'deco']), **{'async': rng.random() < 0.5}))
+    for kill in KILLS:
+        invs.append(mk(rng, kill=kill, hold='keep', out=rng.choice(['ok', 'raise'])))
+    for name in ('ValueError', 'UserErrorSub', 'KeyboardInterrupt'):
+        invs.append(mk(rng, out='raise', exc=EXC[name], hold='keep', big=rng.random() < 0.3, **{'async': rng.random() < 0.5}))
+    invs.append(mk(rng, pick=False, hold='keep'))
     # malformed: outside what any implementation can pass through unchanged / the envelope collision
     for asy in both:
         invs.append(mk(rng, out='raise', exc=EXC['StopIteration'], **{'async': asy}))
@@ -222,10 +260,14 @@ def random_inv(rng, crash=0.35, allow_cancel=True, sig=None):
         k['nest'] = rng.choice(NESTS)
     if r > crash:
         if rng.random() < 0.6:
+            if rng.random() < 0.25:
+                k['ret'] = rng.choice(RETS)
             return mk(rng, **k)
-        return mk(rng, out='raise', exc=EXC[rng.choice(REPORTED)], **k)
+        return mk(rng, out='raise', exc=EXC[rng.choice(REPORTED)], hold='keep' if rng.random() < 0.4 else 'none', **k)
     what = rng.choice(['die', 'die', 'notexc', 'unpick', 'kill', 'kill', 'kill', 'stopiter', 'reterr', 'unp', 'kwname']
                       + (['cancel', 'cancel'] if allow_cancel else []))
+    if what in ('die', 'notexc', 'unpick', 'kill', 'stopiter') and rng.random() < 0.4:
+        k['hold'] = 'keep'
     if what == 'cancel':
         return mk(rng, out=rng.choice(['ok', 'ok', 'raise', 'die']), cancel=rng.choice(CANCELS), **k)
     if what == 'unp':
@@ -272,6 +314,37 @@ def gen_concurrent(rng, tier, scale):
     return cases
 
 
+def gen_series(rng, tier, scale):
+    """several failed invocations in ONE process: a few one after the other, then a few at the same time next to a healthy
+    one, then (sometimes) one more; the callers keep what they caught until the end of the case; one census at the end"""
+    def failing(rnd):
+        what = rng.choice(['die', 'die', 'die', 'kill', 'raise', 'unpick'])
+        k = {'round': rnd, 'hold': 'keep' if rng.random() < 0.85 else 'none', 'via': rng.choice(['func', 'deco']),
+             'async': rng.random() < 0.4, 'dur': rng.choice([0, 0, 3, 8])}
+        if what == 'die':
+            return mk(rng, out='die', die=rng.choice(DIES), **k)
+        if what == 'kill':
+            return mk(rng, out=rng.choice(['ok', 'raise']), kill=rng.choice(['after_fork', 'in_callee']), **k)
+        if what == 'unpick':
+            return mk(rng, pick=False, **k)
+        return mk(rng, out='raise', exc=EXC[rng.choice(REPORTED + NOT_EXCEPTION)], **k)
+    cases = []
+    for _ in range((4 if tier == 'quick' else 60) * scale):
+        invs, rnd = [], 0
+        for _ in range(rng.choice([2, 3, 4])):
+            invs.append(failing(rnd))
+            rnd += 1
+        group = [failing(rnd) for _ in range(rng.choice([2, 3, 4] if tier == 'quick' else [2, 3, 4, 8, 16]))]
+        group.insert(rng.randrange(len(group) + 1), mk(rng, round=rnd, dur=rng.choice([0, 10, 25]), ticks=rng.random() < 0.5,
+                                                       ret=rng.choice(['plain', 'plain'] + RETS[:4])))
+        invs += group
+        rnd += 1
+        if rng.random() < 0.5:
+            invs.append(failing(rnd))
+        cases.append({'invs': invs})
+    return cases
+
+
 # ---- judging ---------------------------------------------------------------------------------------------------------------
 REF = {}     # the report observed for the plainest death in the current evaluation
 
@@ -308,6 +381,8 @@ def judge_inv(inv, r, m):
     if not r.get('hang') and code == 5 and uniform != 1:
         fails.append(f'the death of the child is reported by {name_of(r["final"][1])} here, but by {name_of(REF.get("path"))} when the child '
                      f'simply exits before sending anything (the report of a silent child death depends on the crash point)')
+    if r.get('shared_exc_with'):
+        fails.append(MSG_SHARED)
     if r.get('open_ends'):
         fails.append('pipe end of the invocation still open in the parent when the await hands over the outcome')
     if r.get('unreaped'):
@@ -344,6 +419,18 @@ def judge_inv(inv, r, m):
                 pass
             elif not (inv['kill'] in ('mid_send', 'after_fork') and faithful):    # the whole message got through before the death
                 corr = f'implementation {show(r["final"])}, model {show([m_kind, m_path])}'
+        if (corr is None and inv.get('ret', 'plain') != 'plain' and inv['out'] == 'ok' and inv['kill'] == 'none'
+                and inv.get('cancel', 'none') == 'none' and not inv.get('unp') and (inv['pick'] or inv['ret'] == 'coroutine')):
+            # the returned-object dimension: Model/SubprocRet.v on the regenerated child program
+            mret = RETM.get((inv['ret'], bool(inv['async'])))
+            if mret is None:
+                corr = 'model evaluation of the returned-object dimension failed'
+            elif mret == [1] and code != 1:
+                corr = f'implementation {show(r["final"])}, model: an instance of the class the callee returned'
+            elif mret == [0] and not (code == 5 and r['final'][1] == [0, 11, 0]):
+                corr = f'implementation {show(r["final"])}, model: nothing can be sent, the child dies without a report'
+            elif mret not in ([0], [1]):
+                corr = f'model of the returned-object dimension answers {mret}'
     return fails, corr
 
 
@@ -353,6 +440,12 @@ def judge_batch(case, r):
         return fails
     if r.get('loop_broken'):
         fails.append('the event loop thread was blocked until the hard watchdog fired')
+    # NOT judged: r['fd_delta_while_held'] - the count taken while the callers still reference the exception objects they
+    # caught.  On the unchanged library it is +2 per failed invocation (raised by the callee or child death alike): the
+    # traceback of the exception keeps the frame of calculate_in_subprocess, its local `process` is joined but never
+    # close()d, so the sentinel and the parent's end of the fork pipe of multiprocess stay open until the caller lets go of
+    # the exception (suspected defect, reported to the coordinator; minimal repair: process.close() after process.join()).
+    # The census that IS judged is taken when the callers have dropped what they caught.
     if r.get('fd_delta'):
         fails.append(f'{r["fd_delta"]:+d} open file descriptors in the parent after all awaits returned (after gc)')
     if r.get('children_left'):
@@ -384,11 +477,30 @@ class Runner:
                 terms.append(coq_case(inv, rs[ii] if ii < len(rs) else None, ref))
                 where.append((ci, ii))
         models = self.ck.coq_eval(PRE, terms) if self.ck.model_ok else [None] * len(terms)
+        # the two small models: returned objects (once per run), exception identity / lifetime (per case in which a
+        # caller kept what it caught: how each invocation ended, as observed -> descriptors open after / while held)
+        keys = []
+        if not RETM and any(i.get('ret', 'plain') != 'plain' for c in cases for i in c['invs']):
+            keys = [(ret, asy) for ret in RETS for asy in (False, True)]
+        xterms = [f'eval_ret child_prog {1 + RETS.index(ret)} {coq_bool(asy)}' for ret, asy in keys]
+        held_cases = []
+        for ci, (c, r) in enumerate(zip(cases, impl)):
+            if r and 'invs' in r and r.get('fd_delta_while_held') is not None and len(r['invs']) == len(c['invs']):
+                ends = []
+                for inv, ri in zip(c['invs'], r['invs']):
+                    f = ri.get('final') or [0, []]
+                    kept = inv.get('hold', 'none') == 'keep' and f[0] in (3, 4, 5) and f[1] != [4]
+                    ends.append('IReturn' if not kept else ('IDeath' if f == [5, [0, 11, 0]] else 'IRaise'))
+                held_cases.append(ci)
+                xterms.append(f'eval_exc parent_prog {coq_list(ends)}')
+        xgot = self.ck.coq_eval(PRE_RET, xterms) if (xterms and self.ck.model_ok) else [None] * len(xterms)
+        RETM.update({k: g for k, g in zip(keys, xgot) if g is not None})
+        excm = dict(zip(held_cases, xgot[len(keys):]))
         per = [[None] * len(c['invs']) for c in cases]
         for (ci, ii), m in zip(where, models):
             per[ci][ii] = m
         out = []
-        for c, r, ms in zip(cases, impl, per):
+        for ci, (c, r, ms) in enumerate(zip(cases, impl, per)):
             e = {'case': c, 'impl': r, 'models': ms, 'inv_fails': [], 'batch_fails': [], 'corr': [], 'skipped': False}
             if r is None or 'error' in (r or {}):
                 e['corr'].append(f'implementation worker failed: {r}')
@@ -402,6 +514,13 @@ class Runner:
                     if k:
                         e['corr'].append(f'invocation {ii}: {k}')
                 e['batch_fails'] = judge_batch(c, r)
+                if ci in excm and not e['inv_fails'] and not e['batch_fails']:
+                    mx = excm[ci]
+                    if mx is None or len(mx) != 3:
+                        e['corr'].append(f'model evaluation of the exception identity / lifetime dimension failed: {mx}')
+                    elif mx[0] != r.get('fd_delta') or mx[1] != r.get('fd_delta_while_held'):
+                        e['corr'].append(f'descriptors open after the callers dropped what they caught / while they held it: implementation '
+                                         f'{r.get("fd_delta")} / {r.get("fd_delta_while_held")}, model {mx[0]} / {mx[1]}')
             out.append(e)
         return out
 
@@ -416,7 +535,8 @@ def matcher(finding, case, whats=None):
         return False
     i = invs[0]
     plain = (i['pick'] and i['kill'] == 'none' and not i.get('unp') and i.get('cancel', 'none') == 'none'
-             and i.get('nest', 'none') == 'none' and i.get('sig', 'none') == 'none')
+             and i.get('nest', 'none') == 'none' and i.get('sig', 'none') == 'none'
+             and i.get('ret', 'plain') == 'plain' and i.get('hold', 'none') == 'none')
     if m.get('id') == 'callee_returns_subprocess_error':
         return i['reterr'] and i['out'] == 'ok' and plain and kw_class(i) == 'KWNone' and list(whats) == [MSG_K1]
     if m.get('id') == 'payload_cannot_be_unpickled_in_parent':
@@ -442,7 +562,8 @@ def size_of(case):
     invs = case['invs']
     return (len(invs), sum(1 for i in invs if i['kill'] != 'none' or i['out'] != 'ok' or i['big'] or not i['pick'] or i['reterr']),
             sum(1 for i in invs if i.get('nest', 'none') != 'none') + sum(1 for i in invs if i.get('sig', 'none') != 'none')
-            + sum(1 for i in invs if i.get('cancel', 'none') != 'none'))
+            + sum(1 for i in invs if i.get('cancel', 'none') != 'none') + sum(1 for i in invs if i.get('ret', 'plain') != 'plain')
+            + sum(1 for i in invs if i.get('hold', 'none') != 'none') + len(set(i.get('round', 0) for i in invs)) - 1)
 
 
 def run(tier, seed, replay=None):
@@ -465,15 +586,16 @@ def run(tier, seed, replay=None):
     else:
         s1 = gen_single(ck.rng, tier, ck.scale())
         s2 = gen_concurrent(ck.rng, tier, ck.scale())
-        cases = s1 + s2
-        streams = ['single'] * len(s1) + ['concurrent'] * len(s2)
+        s3 = gen_series(ck.rng, tier, ck.scale())
+        cases = s1 + s2 + s3
+        streams = ['single'] * len(s1) + ['concurrent'] * len(s2) + ['series'] * len(s3)
     evals = rn.evaluate(cases)
 
-    hist = {'out': {}, 'exc': {}, 'kill': {}, 'cancel': {}, 'nest': {}, 'sig': {}, 'batch_size': {}, 'outcome': {}, 'flags': {}}
+    hist = {'out': {}, 'exc': {}, 'kill': {}, 'cancel': {}, 'nest': {}, 'sig': {}, 'ret': {}, 'hold': {}, 'rounds': {}, 'batch_size': {}, 'outcome': {}, 'flags': {}}
 
     def bump(h, k):
         hist[h][str(k)] = hist[h].get(str(k), 0) + 1
-    disagreements = {'single': [], 'concurrent': [], 'replay': []}
+    disagreements = {'single': [], 'concurrent': [], 'series': [], 'replay': []}
     pending = []     # (what, entry, stream, failing invocation indices)
     skipped = 0
     n_inv = 0
@@ -483,6 +605,9 @@ def run(tier, seed, replay=None):
             skipped += 1
             continue
         bump('batch_size', len(c['invs']))
+        bump('rounds', len(set(i.get('round', 0) for i in c['invs'])))
+        if r and r.get('fd_delta_while_held'):
+            bump('flags', 'descriptors-open-while-the-caller-holds-the-exception(not judged)')
         for ii, inv in enumerate(c['invs']):
             n_inv += 1
             bump('out', inv['out'] + (':' + inv['die'] if inv['out'] == 'die' else ''))
@@ -490,6 +615,8 @@ def run(tier, seed, replay=None):
                 bump('exc', next(k for k, v in EXC.items() if v == inv['exc']))
             bump('kill', inv['kill'])
             bump('cancel', inv.get('cancel', 'none'))
+            bump('ret', inv.get('ret', 'plain'))
+            bump('hold', inv.get('hold', 'none'))
             bump('nest', inv.get('nest', 'none') + ('+killed-while-its-process-lives' if inv.get('glife') else ''))
             bump('sig', inv.get('sig', 'none') + ('+cancel' if inv.get('sig', 'none') != 'none' and inv.get('cancel', 'none') != 'none' else ''))
             for fl in ('big', 'async', 'reterr', 'ticks'):
@@ -506,11 +633,12 @@ def run(tier, seed, replay=None):
                     bump('flags', 'nest-reference-failed(not judged)')
                 if inv['kill'] == 'mid_send' and r['invs'][ii]['final'][0] == 5:
                     bump('flags', 'truncated-message-hit')
-            key = json.dumps([inv.get(k) for k in ('out', 'exc', 'die', 'big', 'pick', 'async', 'reterr', 'kill', 'via', 'ticks', 'cancel', 'unp', 'nest', 'sig')] + [bool(inv.get('glife'))]
+            key = json.dumps([inv.get(k) for k in ('out', 'exc', 'die', 'big', 'pick', 'async', 'reterr', 'kill', 'via', 'ticks', 'cancel', 'unp', 'nest', 'sig', 'ret', 'hold')] + [bool(inv.get('glife'))]
                              + [len(c['invs']), ii if len(c['invs']) > 1 else 0, inv['nonce'] if len(c['invs']) > 1 else 0])
             ck.note_case(key, nontrivial=(len(c['invs']) > 1 or inv['out'] != 'ok' or inv['big'] or inv['async']
                                           or inv['kill'] != 'none' or not inv['pick'] or inv['reterr'] or inv.get('cancel', 'none') != 'none'
-                                          or inv.get('nest', 'none') != 'none' or inv.get('sig', 'none') != 'none'))
+                                          or inv.get('nest', 'none') != 'none' or inv.get('sig', 'none') != 'none'
+                                          or inv.get('ret', 'plain') != 'plain' or inv.get('hold', 'none') != 'none'))
         if r and r.get('reordered'):
             bump('flags', 'batch-completed-out-of-call-order')
         if e['inv_fails'] or e['batch_fails']:
@@ -591,7 +719,7 @@ def run(tier, seed, replay=None):
     if skipped:
         ck.notes.append(f'{skipped} cases skipped by workers after a hang had been observed')
 
-    for s in ('single', 'concurrent') if replay is None else ('replay',):
+    for s in ('single', 'concurrent', 'series') if replay is None else ('replay',):
         d = disagreements[s]
         ck.oblige(f'correspondence:{s}', 'correspondence', not d,
                   json.dumps(d[0], default=str)[:1200] if d else f'{ck.traces_validated} invocations agree with the model')
@@ -613,11 +741,16 @@ def run(tier, seed, replay=None):
              'implementation-only dimensions: callee delegates to a process of its own {nested in_subprocess 1 or 2 levels, multiprocess.Process} '
              'x {def, async def} x {return, raise, die}; application-installed SIGTERM+SIGINT dispositions {recording handler, SIG_IGN} x '
              '{4 cancellation scenarios, plain, die, external kill, nested} with loop liveness watched by the callee; '
+             'callee returns a picklable awaitable / failing awaitable / generator-like object / both / a coroutine object (ret) x {def, async def}; '
+             'the caller keeps the caught exception objects until the case is over (hold) - identity compared across invocations, census after they are dropped; '
+             'series: 2-4 failed invocations one after the other, then 2-4 (thorough: up to 16) at the same time next to a healthy one, on one loop in one process; '
              'concurrent: batches of 2..8 (quick) / 2..64 (thorough) random invocations awaited together; distinct = behaviour tuple '
              '(+ position and nonce inside a batch); non-trivial = anything but a lone small synchronous returning callee',
         checker_cmd='make -C coq Props/C17.vo && coqc -Q coq PV coq/Props/C17.v (Print Assumptions under every theorem)',
         trusted_base=['Coq 8.16.1 kernel (coqc; vm_compute for the finite sweep Proofs/SubprocCheck.v and model evaluation)',
                       'translator/t_subproc.py (Python ast -> Gen/Subproc.v)',
                       'Model/PipeKernel.v + Model/Subproc.v: semantics of pipes, fork inheritance, EOF, join, the op languages',
+                      'Model/SubprocRet.v: which returned values are awaitable / picklable, what run_until_complete does with them',
+                      'Model/SubprocExc.v: a raised exception object keeps the raising frame, the frame keeps the Process object and its two descriptors',
                       'harness/w_subproc.py, harness/subproc_callees.py, harness/c17.py (correspondence glue, crash injection)',
                       'multiprocess 0.70 / dill, asyncio selector loop, Linux pipes and process reaping (modelled, validated by correspondence only)'])
